@@ -13,7 +13,8 @@
 (***************************************************************************)
 EXTENDS TLC, Json, Sequences, FiniteSets, Naturals
 
-CONSTANTS EmitTR
+CONSTANTS EmitTR,
+          Pairs     \* TRUE (thorough tier): also every pair of optional parts added / removed
 
 F(p, parent, kind, req) == [p |-> p, parent |-> parent, kind |-> kind, req |-> req]
 Root == ""
@@ -101,6 +102,9 @@ Optional(S) == {f.p : f \in {g \in S : ~g.req}}
 Instances(S) == {Minimal(S), Full(S)}
                 \cup {Close(S, Minimal(S) \cup {p}) : p \in Optional(S)}            \* one optional part added
                 \cup {Full(S) \ Descendants(S, p) : p \in Optional(S)}              \* one optional part removed
+                \cup (IF ~Pairs THEN {} ELSE
+                      {Close(S, Minimal(S) \cup {p, q}) : p \in Optional(S), q \in Optional(S)}
+                      \cup {Full(S) \ (Descendants(S, p) \cup Descendants(S, q)) : p \in Optional(S), q \in Optional(S)})
 
 TablesOf(S, d) == {Root} \cup {p \in d : Field(S, p).kind \in {"table", "tables"}}
 FreeOf(S, d) == {p \in d : Field(S, p).kind = "free"}
